@@ -2168,19 +2168,21 @@ theorem writeBuf_descr (t : ITy) (x : Int) : writeBuf (img x) (descr t).size = .
   cases t <;> simp [writeBuf, descr, objBits, ITy.size] <;>
     (apply BitVec.eq_of_toNat_eq; simp only [castU, img, BitVec.toNat_setWidth, BitVec.toNat_ofInt]; omega)
 
-/-- **static initializer**: the object holds the C11 conversion of the value to the object's type -/
-theorem store_gvar (fp : FpEnv) (t : ITy) (e : CExpr) (v : Int) (h : Folds fp e v) :
-    storeGvar .wrapping fp (descr t) (elabE e) (img v) = .ok (objBits t (t.convert v)) := by
+/-- **static initializer** (node level): an integer-typed initializer whose folded value is the image of `v`: the object
+    holds the C11 conversion of `v` to the object's type -/
+theorem store_gvar_node (fp : FpEnv) (t s : ITy) (n : CNode) (v : Int) (hty : CNode.tyOf n = .ok (descr s))
+    (hv : s.inRange v = true) :
+    storeGvar .wrapping fp (descr t) n (img v) = .ok (objBits t (t.convert v)) := by
   unfold storeGvar
   by_cases hb : t = .bool
   · subst hb
-    have hw := inRange_wide _ v h.1
+    have hw := inRange_wide _ v hv
     have hz := img_eq_zero_iff v hw.1 hw.2
     have e1 : (img v != 0#64) = (v != 0) := by
       rw [Bool.eq_iff_iff]; simp only [bne_iff_ne, ne_eq]; exact not_congr hz
     have e2 : ITy.convert .bool v = b2z (v != 0) := by
       simp only [ITy.convert, b2z]; by_cases h0 : v = 0 <;> simp [h0]
-    simp only [show ((descr .bool).kind == TypeKind.TY_BOOL) = true from rfl, ite_true, tyOf_elab, bind, Except.bind,
+    simp only [show ((descr .bool).kind == TypeKind.TY_BOOL) = true from rfl, ite_true, hty, bind, Except.bind,
       descr_not_flonum, Bool.false_eq_true, ite_false, pure, Except.pure, e1, e2]
     cases (v != 0) <;> rfl
   · have hk : ((descr t).kind == TypeKind.TY_BOOL) = false := by cases t <;> first | rfl | exact absurd rfl hb
@@ -2188,6 +2190,11 @@ theorem store_gvar (fp : FpEnv) (t : ITy) (e : CExpr) (v : Int) (h : Folds fp e 
     congr 1
     cases t <;> simp only [objBits, ITy.convert, ITy.signed, ITy.bits, ITy.size, ite_true, ite_false, Bool.false_eq_true] <;>
       first | exact absurd rfl hb | (apply img_congr; omega)
+
+/-- **static initializer**: the object holds the C11 conversion of the value to the object's type -/
+theorem store_gvar (fp : FpEnv) (t : ITy) (e : CExpr) (v : Int) (h : Folds fp e v) :
+    storeGvar .wrapping fp (descr t) (elabE e) (img v) = .ok (objBits t (t.convert v)) :=
+  store_gvar_node fp t (typeOf e) (elabE e) v (tyOf_elab e) h.1
 
 /-- **static initializer, the whole scalar path** (`eval2(init->expr, &label)` included): an integer constant expression is
     never taken for a floating initializer, and the object holds the C11 conversion of its value -/
